@@ -45,11 +45,22 @@ func (e *env) execCall(cl Client, cs CallSpec, ctx context.Context, rec *sched.C
 		}
 	case "cache":
 		c := Cacheable(buildCmd(cl.B(), cs.Cmds[0]))
+		if cs.Static {
+			c = c.ToStaticTTL()
+		}
 		r.Res = []Res{toRes(cl.DoCache(ctx, c, time.Duration(cs.TTLMs)*time.Millisecond))}
 	case "mcache":
 		var cts []CacheableTTL
-		for _, c := range cs.Cmds {
-			cts = append(cts, CT(Cacheable(buildCmd(cl.B(), c)), time.Duration(cs.TTLMs)*time.Millisecond))
+		for i, c := range cs.Cmds {
+			ttl := cs.TTLMs
+			if i < len(cs.TTLs) {
+				ttl = cs.TTLs[i]
+			}
+			cc := Cacheable(buildCmd(cl.B(), c))
+			if cs.Static {
+				cc = cc.ToStaticTTL()
+			}
+			cts = append(cts, CT(cc, time.Duration(ttl)*time.Millisecond))
 		}
 		for _, x := range cl.DoMultiCache(ctx, cts...) {
 			r.Res = append(r.Res, toRes(x))
